@@ -3,6 +3,8 @@ package props
 import (
 	"bytes"
 	"io"
+	"os"
+	"path/filepath"
 	"reflect"
 	"sort"
 	stdstrconv "strconv"
@@ -28,6 +30,28 @@ type wlInput struct {
 	kind int
 	data []byte // private copy, with private spare capacity
 	opt  int
+	path string // wlBinary: a private file holding data (created by the main goroutine before the phases)
+}
+
+var wlFileSeq int
+
+// prepareFile gives a wlBinary input its private file. Main goroutine only.
+func prepareFile(in *wlInput) {
+	if in.kind != wlBinary || in.path != "" {
+		return
+	}
+	if c19Dir == "" {
+		d, err := os.MkdirTemp("", "vsim-c19-")
+		if err != nil {
+			panic("harness: temp dir: " + err.Error())
+		}
+		c19Dir = d
+	}
+	wlFileSeq++
+	in.path = filepath.Join(c19Dir, "c20-"+stdstrconv.Itoa(wlFileSeq&63)+".bin")
+	if err := os.WriteFile(in.path, in.data, 0o600); err != nil {
+		panic("harness: temp file: " + err.Error())
+	}
 }
 
 const (
@@ -610,6 +634,27 @@ func runWorkloadIn(in wlInput, scratch []byte) (out []byte) {
 			bw.Write(c&1 == 1)
 		}
 		t.add("bitmap", bw.Bytes())
+		if in.path != "" {
+			// the same bytes through a private file: file-backed and memory-mapped readers
+			// (an empty file included); every instance is opened, used and closed by this task
+			for _, open := range []func(string) (*parse.BinaryReader, error){parse.NewBinaryReaderPath, parse.NewBinaryReaderMmapPath} {
+				call()
+				fr, err := open(in.path)
+				if err != nil {
+					t.add("open", err)
+					continue
+				}
+				t.add("flen", fr.Len())
+				for i := 0; i < 6; i++ {
+					call()
+					t.add("fu16", fr.ReadUint16(), fr.Pos(), fr.Err())
+				}
+				p := make([]byte, 3)
+				n, e := fr.ReadAt(p, 0)
+				t.add("freadat", p[:n], e)
+				t.add("fclose", fr.Close())
+			}
+		}
 	case wlBufferRW:
 		w := buffer.NewWriter(make([]byte, 0, in.opt%7))
 		for _, part := range bytes.SplitAfter(d, []byte(" ")) {
